@@ -245,3 +245,30 @@ def run(ctx):
         hm.rel,
         ss.lineno if ss is not None else gs.lineno,
     )
+
+    # ---- C25.5 a fork first recorded as the *child* of an advance also gets its edge -----------------
+    # merge_handles(handles) calls advance_handle(handles[1:], handles[0]): the merged state is the first handle itself.  If that handle is an
+    # explicit fork that has not been recorded yet, it enters advance_handle as the child; the fork-edge collection must look at it as well.
+    r5 = ctx.rule("C25.5", "advance_handle considers the child handle's fork_parent, not only the parents'", floor=1)
+    chp = ah.args.args[2].arg if len(ah.args.args) > 2 else "child_handle"
+    considered = any(
+        isinstance(n, ast.Attribute) and n.attr == "fork_parent" and chp in {x.id for x in ast.walk(n.value) if isinstance(x, ast.Name)}
+        for n in ast.walk(ah)
+    ) or any(
+        isinstance(n, (ast.List, ast.Tuple, ast.BinOp)) and chp in {x.id for x in ast.walk(n) if isinstance(x, ast.Name)} and any(isinstance(p, (ast.comprehension, ast.For)) and any(n is z for z in ast.walk(p.iter)) for p in ast.walk(ah))
+        for n in ast.walk(ah)
+    )
+    if not considered:
+        # a local that holds the child next to the parents, iterated by the collecting loops/comprehensions
+        holders = {src(a.targets[0]) for a in ast.walk(ah) if isinstance(a, ast.Assign) and isinstance(a.targets[0], ast.Name) and chp in {x.id for x in ast.walk(a.value) if isinstance(x, ast.Name)}}
+        iters = {src(p.iter) for p in ast.walk(ah) if isinstance(p, (ast.comprehension, ast.For))}
+        pair_iters = {src(g.iter) for n in ast.walk(ah) if isinstance(n, ast.ListComp) and "fork_parent" in src(n) for g in n.generators}
+        considered = bool(holders & iters & pair_iters)
+    r5.check(
+        considered,
+        f"{db.rel}:RedunBackendDb.advance_handle:child-fork-parent",
+        f"advance_handle collects (fork parent, fork) pairs from its parent handles only: merge_handles([st.fork('a'), other]) passes the unrecorded fork as `{chp}`, it is marked recorded without an edge "
+        "from `st`, and a rollback at or above `st` leaves the fork and everything derived from it valid",
+        db.rel,
+        ah.lineno,
+    )
